@@ -8,6 +8,12 @@ VERIF = os.path.dirname(os.path.dirname(os.path.abspath(__file__)))
 KANI = "Kani 0.68 / CBMC 6.11 bounded model checking of the compiled real code (SAT, cadical)"
 MIX = "Kani/CBMC harnesses + own MIR->SMT translation (z3 + cvc5) of loop-free decision kernels, native replay"
 CLAIMED = {
+    "C01": dict(
+        text="PARTIAL (very thin). Solver-backed (MIR->SMT) check of ONE totality hazard: every closure of the parser/validator that is applied to ids drawn from the matcher (29 closures) never calls "
+             "unwrap()/expect() directly on Command::find(id) - matcher ids include group ids, for which the lookup is None. Termination, the other expect(INTERNAL_ERROR_MSG)/unreachable! sites, "
+             "error rendering and error-ignoring mode are NOT decided: the parse loop as a whole is out of reach (DESIGN 0).",
+        note="Each closure body is executed from its MIR with all callees opaque; the lookup may be None is the only semantic fact used; realised natively through the public API.",
+        ref="2 C01", technique="own MIR->SMT translation: panic-edge reachability in closure bodies, z3 + cvc5, native replay"),
     "C02": dict(
         text="PARTIAL. Solver-decided kernels the property's mechanisms bottom out in: (Kani) the value-count boundary (ValueRange predicates and From<range> impls, all usize values) and "
              "per-occurrence grouping in MatchedArg (short symbolic op sequences); (MIR->SMT) ArgMatcher::needs_more_vals == 'pending count < max' and Parser::verify_num_args accepting exactly "
@@ -91,7 +97,6 @@ CLAIMED = {
 }
 
 NOT_APPLICABLE = {
-    "C01": "whole-parser totality needs Command::build + Parser::parse under symbolic execution; a one-flag build does not finish symex in 17 min, a 2-token parse not in 15 min (DESIGN 0)",
     "C09": "subcommand recognition on even an unbuilt 2-subcommand tree exhausts 10 GB; dispatch/global propagation need built commands",
     "C11": "state that could leak is written by _build_self/_build_bin_names_internal which do not finish symbolic execution; needs repeated builds/parses",
     "C15": "proc-macro translation running inside rustc plus generated code over a built Command: neither reachable by Kani nor a loop-free scalar kernel for the MIR->SMT engine",
@@ -133,7 +138,7 @@ def main():
         "engines": [
             {"name": "kani", "path": "/verif/runner/kani.py", "serves_properties": sorted(p for p in CLAIMED if p != "C12"),
              "kind_free_text": "Kani 0.68/CBMC 6.11 harnesses (kani/lex external crate; harness/*.rs included into clap_builder under cfg clap_verif); counterexamples replayed natively via concrete playback"},
-            {"name": "mirsmt", "path": "/verif/runner/mir_check.py", "serves_properties": ["C02", "C03", "C04", "C05", "C06", "C10", "C12", "C18", "C20"],
+            {"name": "mirsmt", "path": "/verif/runner/mir_check.py", "serves_properties": ["C01", "C02", "C03", "C04", "C05", "C06", "C10", "C12", "C18", "C20"],
              "kind_free_text": "MIR (cargo +nightly rustc -Zunpretty=mir, overflow checks on) of loop-free scalar functions -> SMT-LIB2 bit-vector queries (mirsmt/*.py), decided by z3 and cvc5; candidates realised by a native #[test] in the harness module"},
         ],
         "checks": checks,
